@@ -30,7 +30,6 @@ Proof.
   intros evs H. apply reliable_link_no_retry.
   - cbv. split; [reflexivity|]. split; [reflexivity|]. intros X. congruence.
   - eapply Forall_impl; [|exact H]. destruct driver_flags as (_ & _ & _ & _ & U & _).
-    intros e He. destruct e; cbn [reliable_ev]; auto.
-    + subst. exact U.
-    + destruct He as (outs & He). subst. apply radio_flag_follows_last_handshake.
+    intros e He. destruct e; cbn [reliable_ev]; auto; try (subst; exact U).
+    destruct He as (outs & He). subst. apply radio_flag_follows_last_handshake.
 Qed.
